@@ -984,6 +984,8 @@ class PCtypeTab(object):
 
 def _cdiv(a, b):
     """C integer division (truncation toward zero), exact for arbitrarily large operands"""
+    if isinstance(a, float) or isinstance(b, float):
+        return a / b
     q = abs(a) // abs(b)
     return q if (a < 0) == (b < 0) else -q
 
@@ -1062,6 +1064,12 @@ _SIGNED = {"char": 8, "signed char": 8, "ev_int8_t": 8, "short": 16, "ev_int16_t
 
 
 def cast_int(ty, v):
+    if isinstance(v, float):
+        t_ = ty.replace("const ", "").strip()
+        if t_ in _UNSIGNED or t_ in _SIGNED:
+            v = int(v)          # C conversion of a floating value to an integer type truncates toward zero
+        else:
+            return v
     if not isinstance(v, int):
         return v
     ty = ty.replace("const ", "").strip()
@@ -1291,6 +1299,8 @@ def _tyinfo(t):
 
 
 def _conv(v, ty):
+    if isinstance(v, float):
+        v = int(v)
     if not isinstance(v, int):
         return v
     bits, signed = ty
@@ -1426,6 +1436,17 @@ def tevalx(e, env, P, fn):
         if op == "||":
             return 1 if (tevalx(e[2], env, P, fn) or tevalx(e[3], env, P, fn)) else 0
         a, b = tevalx(e[2], env, P, fn), tevalx(e[3], env, P, fn)
+        if (isinstance(a, float) or isinstance(b, float)) and isinstance(a, (int, float)) and isinstance(b, (int, float)):
+            # floating arithmetic (strtod results): plain real arithmetic, comparisons give 0/1
+            if op in ("+", "-", "*"):
+                return {"+": a + b, "-": a - b, "*": a * b}[op]
+            if op == "/":
+                if b == 0:
+                    raise EvalError("div0")
+                return a / b
+            if op in ("<", "<=", ">", ">=", "==", "!="):
+                return int({"<": a < b, "<=": a <= b, ">": a > b, ">=": a >= b, "==": a == b, "!=": a != b}[op])
+            raise EvalError("operator %s on a floating value" % op)
         if not isinstance(a, int) or not isinstance(b, int):
             if op == "+":
                 return a + b
